@@ -1,6 +1,6 @@
 PROP = dict(
     harness="c10", level="exploration",
-    quick=dict(cases=64000, max_size=40, workers=8),
+    quick=dict(cases=200000, max_size=40, workers=16),
     thorough=dict(cases=1500000, max_size=60, workers=16),
     rule=("rapidcheck programs over one CodeHolder (x86-64 / x86-32 / AArch64 Assembler): 0-12 new_section calls (names 0-40 bytes incl. "
           "empty, duplicate, '.text'/'.addrtab' look-alikes, high bytes, >35 refused; alignments 2^0..2^16, 0, and non-powers of two "
